@@ -42,7 +42,10 @@ type prog struct {
 }
 
 func gen(rt *rapid.T) prog {
-	p := prog{NOps: rapid.IntRange(1, 4).Draw(rt, "nops"), NSRs: rapid.IntRange(1, 4).Draw(rt, "nsrs"), SharedIDs: rapid.IntRange(0, 3).Draw(rt, "sharedids") == 0, DupDuring: rapid.IntRange(0, 2).Draw(rt, "dupduring") == 0}
+	// assemblies of 1..4 members mostly; now and then one around a word size (63..66, 127..130)
+	size := rapid.OneOf(rapid.IntRange(1, 4), rapid.IntRange(1, 4), rapid.IntRange(1, 4), rapid.IntRange(1, 4), rapid.IntRange(1, 4), rapid.IntRange(1, 4), rapid.IntRange(1, 4), rapid.IntRange(1, 4), rapid.IntRange(1, 4), rapid.IntRange(1, 4), rapid.IntRange(1, 4),
+		rapid.SampledFrom([]int{8, 16, 31, 32, 33, 63, 64, 65, 66, 127, 128, 129, 130}))
+	p := prog{NOps: size.Draw(rt, "nops"), NSRs: size.Draw(rt, "nsrs"), SharedIDs: rapid.IntRange(0, 3).Draw(rt, "sharedids") == 0, DupDuring: rapid.IntRange(0, 2).Draw(rt, "dupduring") == 0}
 	n := rapid.IntRange(2, 50).Draw(rt, "n")
 	for i := 0; i < n; i++ {
 		k := rapid.SampledFrom([]string{"create", "create", "savepoint", "ackop", "ackop", "ackop", "ackop", "acksr", "acksr", "acksr", "acksr", "restart", "newassembly", "failwrite", "finish", "finish"}).Draw(rt, "kind")
@@ -476,5 +479,5 @@ func exec(p prog, c *hx.Case) error {
 }
 
 func TestPropStore(t *testing.T) {
-	hx.Run(t, hx.Spec{Prop: "C12", Rule: "snapshots.Store over a journaling in-memory StorageLocation with assemblies of 1..4 operators and 1..4 source runners: 2..50 calls of CreateCheckpoint / CreateSavepoint / AddOperatorSnapshot / AddSourceSnapshot (expected, duplicate, foreign senders; pending, stale, future ids) / restart (new Store + LoadCheckpoint) / a storage fault at the next job-snapshot write (then no part of the publication may happen: no event, no retention announcement, CurrentCheckpoint unchanged) / a new assembly (AbandonPendingSnapshot + RegisterSourceSplitter, as jobs.Job.start does; the abandoned id stays used and later acknowledgements for it are foreign); in a quarter of the cases operator i and source runner i share a node id; a model of the pending checkpoint decides when publication must happen (awaited on the store's own CheckpointEvents) and when it must not, and checks the published file entry by entry (one entry per operator, the first acknowledgement's split states of each runner, id strictly above everything published); non-trivial = >=1 checkpoint published and >=1 bad acknowledgement"}, gen, exec)
+	hx.Run(t, hx.Spec{Prop: "C12", Rule: "snapshots.Store over a journaling in-memory StorageLocation with assemblies of 1..4 operators and 1..4 source runners (one case in twelve: 8..130 of either, around the machine word sizes): 2..50 calls of CreateCheckpoint / CreateSavepoint / AddOperatorSnapshot / AddSourceSnapshot (expected, duplicate, foreign senders; pending, stale, future ids) / restart (new Store + LoadCheckpoint) / a storage fault at the next job-snapshot write (then no part of the publication may happen: no event, no retention announcement, CurrentCheckpoint unchanged) / a new assembly (AbandonPendingSnapshot + RegisterSourceSplitter, as jobs.Job.start does; the abandoned id stays used and later acknowledgements for it are foreign); in a quarter of the cases operator i and source runner i share a node id; a model of the pending checkpoint decides when publication must happen (awaited on the store's own CheckpointEvents) and when it must not, and checks the published file entry by entry (one entry per operator, the first acknowledgement's split states of each runner, id strictly above everything published); non-trivial = >=1 checkpoint published and >=1 bad acknowledgement"}, gen, exec)
 }
